@@ -11,6 +11,7 @@ from .pool import Pool, HOST_RESOURCE, FRAMEWORK
 
 ROOT = store.ROOT
 MAX_VIOLATION_LINES = 20
+MAX_HUNG_PER_SPACE = 6
 
 
 class Space:
@@ -85,6 +86,7 @@ def run_spaces(prop, spaces, ledger, pool, triage=False, res=None, sample_every=
             expected = store.load_table(sp.name, ids)
         n_dis = 0
         n_nt = 0
+        n_hung = 0
         items = ((i, (c[1] if c[1] is not None else c[0])) for i, c in enumerate(cases))
         step = max(1, len(cases) // 3) if cases else 1
         for idx, out in pool.run(sp.runner, items, batch=sp.batch, watchdog=sp.watchdog):
@@ -117,6 +119,8 @@ def run_spaces(prop, spaces, ledger, pool, triage=False, res=None, sample_every=
             if triage:
                 res.triage.append((sp, cid, payload, exp, obs))
                 continue
+            if obs == HOST_RESOURCE:
+                n_hung += 1
             fd, same = ledger.lookup(cid, obs)
             if fd is not None and same:
                 res.known_hits[fd["id"]] = res.known_hits.get(fd["id"], 0) + 1
@@ -125,6 +129,13 @@ def run_spaces(prop, spaces, ledger, pool, triage=False, res=None, sample_every=
             res.violations.append({"property": prop, "space": sp.name, "runner": sp.runner,
                                    "case_id": cid, "payload": payload, "expected": exp, "observed": obs,
                                    "listed_as": fd["id"] if fd is not None else None})
+            if n_hung >= MAX_HUNG_PER_SPACE and not triage:
+                # the tree under test hangs case after case (each costs a full watchdog period): the verdict is already a
+                # violation; stop this space instead of spending hours on it, and say so in the evidence
+                res.extra["capped"] = True
+                res.extra.setdefault("capped_spaces", []).append(sp.name)
+                pool.abort()
+                break
         res.per_space.append({"space": sp.name, "cases": len(cases), "nontrivial": n_nt,
                               "disagreements": n_dis, "bound": sp.bound, "rule": sp.rule,
                               "wall_s": round(time.time() - t0, 2)})
